@@ -632,7 +632,15 @@ func run(checkPath, tier, only string, verbose, novalidate bool) int {
 			exit = 1
 		}
 	}
-	for _, m := range inconclusive {
+	inconclusive = dedupe(inconclusive)
+	for k, m := range inconclusive {
+		if k >= 12 {
+			fmt.Printf("INCONCLUSIVE property=%s ... and %d more\n", c.Property, len(inconclusive)-k)
+			break
+		}
+		if len(m) > 1200 {
+			m = m[:1200] + "…"
+		}
 		fmt.Printf("INCONCLUSIVE property=%s %s\n", c.Property, m)
 	}
 	if exit == 0 && len(inconclusive) > 0 {
@@ -655,6 +663,18 @@ func pathHasViolation(r *sx.HarnessResult, s *sx.PathSample) bool {
 		}
 	}
 	return false
+}
+
+func dedupe(in []string) []string {
+	seen := map[string]bool{}
+	var out []string
+	for _, s := range in {
+		if !seen[s] {
+			seen[s] = true
+			out = append(out, s)
+		}
+	}
+	return out
 }
 
 func tail(s string, n int) string {
